@@ -371,10 +371,10 @@ func (c09) Run(tp *Tape, opt RunOpt) *RunOut {
 		siegeN = []int{40, 150, 600, 1050, 1300, 2100}[tp.Draw(LaneWork, 6)]
 		siegePoint = []string{"atom.swap.read", "atom.swap.applied"}[tp.Draw(LaneWork, 2)]
 	}
-	// flood (1 run in 150): one thread calls the memoized function with hundreds of distinct arguments while
+	// flood (1 run in 100): one thread calls the memoized function with hundreds of distinct arguments while
 	// the others keep asking for a handful of arguments that are (or are about to be) in its table: whatever the
 	// table does when it is large, every call returns f's value for its own argument
-	flood := !siege && tp.Chance(LaneWork, 1, 150)
+	flood := !siege && tp.Chance(LaneWork, 1, 100)
 	floodN := 0
 	if flood {
 		floodN = []int{100, 300, 520, 600, 700}[tp.Draw(LaneWork, 5)]
@@ -398,8 +398,6 @@ func (c09) Run(tp *Tape, opt RunOpt) *RunOut {
 		cfg.Q, cfg.WindowBias = 1, 0
 		cfg.MaxDecisions = 4*siegeN + 1000
 	} else if flood {
-		// long quanta: a fifth of the decisions of the usual walk, and the switch still lands on any step
-		cfg.Q = 16
 		cfg.MaxDecisions = 400000
 	} else if tp.Chance(LaneWork, 1, 5) {
 		cfg.StarveID = tp.Draw(LaneWork, nThreads+2)
